@@ -90,6 +90,33 @@ def run(ctx):
                 known_hit[key["fingerprint"]] = (key, known_hit.get(key["fingerprint"], (None, 0))[1] + 1)
                 continue
             bad.append((label, line, f"stage {s}: {kind} with {kv.get('plan', '')[:200]}", s))
+    # correspondence: the visited-set traversal model against NifFile::GetTree on intact, generated (cyclic) and corrupted graphs
+    corr, tl = [], []
+    if not ctx.replay and ctx.driver:
+        for f in filecamp.sample_files():
+            tl.append(f"c15.tree load:{f}")
+            for _ in range(6 if ctx.tier == "quick" else 40):
+                tl.append(f"c15.tree load:{f} {rng.randrange(1, 10**6)} {rng.choice([1, 2, 3])}")
+        types2 = C.run_lines(ctx.harness, ["gen.types"])[0].split(",")
+        for t in rng.sample(types2, 60 if ctx.tier == "quick" else len(types2)):
+            if t not in filecamp.SKIP_SYNTH:
+                tl.append(f"c15.tree synth:{t}+NiNode:{rng.choice(['sse', 'fo3', 'fo4'])}:{rng.randrange(1, 10**6)}:3:3")
+        impl = C.run_lines_parallel(ctx.harness, tl)
+        ml, mi = [], []
+        for i, o in enumerate(impl):
+            if o.startswith("root="):
+                kv = dict(x.split("=", 1) for x in o.split(" "))
+                ml.append(f"c15.tree {kv['root']} {kv['n']} {kv['adj']}")
+                mi.append((i, kv["tree"]))
+            elif not o.startswith(("load-failed", "unloadable-synth", "unusable-source")):
+                bad.append(("tree", tl[i], "GetTree on a (damaged) graph crashed or hung: " + o[:200], "query"))
+        model = C.run_lines_parallel(ctx.driver, ml)
+        for (i, got), m in zip(mi, model):
+            if got != m:
+                corr.append((tl[i], got, m))
+        for j, (l, got, m) in enumerate(corr[:2]):
+            res.violation(f"correspondence-{j}", dict(what=f"GetTree visits [{got[:200]}], the visited-set traversal model [{m[:200]}]", line=l,
+                                                       broken="correspondence Graph/Lookup.lean visit vs NifFile::GetTree"), no_input=True)
     for fp, (k, n) in known_hit.items():
         res.known.append(f"{k['what']} [{n} cases]")
     # one representative per (stage, block type of the first corruption)
@@ -106,7 +133,7 @@ def run(ctx):
         rule="single corruptions: every reference field × 7 kinds for each sample file (quick: at most 250 (field, kind) pairs per file, "
              "sampled); 2..3 simultaneous random corruptions; generated instances of every block type in 3 (quick) / 12 versions; four "
              "stages per case, each in its own process with a 5 s watchdog",
-        corruption_kinds=kinds, load_refused=stages_hit.get("load-refused", 0), skipped=skipped, oracle_failures=len(bad),
+        corruption_kinds=kinds, load_refused=stages_hit.get("load-refused", 0), skipped=skipped, oracle_failures=len(bad), traversal_graphs=len(tl), traversal_mismatches=len(corr),
         failure_classes=sorted({f"{b[3]}: {b[2][:90]}" for b in bad})[:40],
         samples=[f"{l} -> {o[:200]}" for l, o in list(zip(lines, out))[:: max(1, len(lines) // 5)]][:5])
     ctx.allbad = bad
